@@ -72,7 +72,12 @@ class ListPlanning(Planning):
                      for p in graph.predecessors(n)]
             ec = {self._create_observation_task_id(p, observation, clock):
                   graph.edges[p, n]['transfer_data'] for p in graph.predecessors(n)}
-            t = Task(tid, s, f, m.id, preds, comp, td, ec, copy.copy(self.delay_model), gid=n)
+            if self.abs_est is not None:
+                # est / eft on the simulation clock too (workflow est + planned offset, eft with the same slack): a task that
+                # runs as planned is then NOT late, so only injected delays flag tasks
+                t = Task(tid, est_wf + s, est_wf + f + self.abs_est + 3, m.id, preds, comp, td, ec, copy.copy(self.delay_model), gid=n)
+            else:
+                t = Task(tid, s, f, m.id, preds, comp, td, ec, copy.copy(self.delay_model), gid=n)
             mapping[n] = t
             tasks.append(t)
         g2 = nx.relabel_nodes(graph, mapping)
